@@ -346,7 +346,55 @@ def gen_cases(rng, tier, ctx):
         if calls:
             cases.append({'kind': 'eval', 'expr': e, 'route': 'str', 'calls': calls, 'malformed': what})
     rnd = [c for c in cases if not _fragile_case(c)]
-    return _det_cases(tier) + rnd + _session_stream(rng, 30 * mul) + _magn_stream(rng, 30 * mul)
+    out = _det_cases(tier) + rnd + _session_stream(rng, 30 * mul) + _magn_stream(rng, 30 * mul)
+    # drawn last from its own generator: the streams above are the same as before round 6
+    return out + _bound_stream(random.Random(rng.getrandbits(64)), 40 * mul)
+
+
+def _bound_stream(rng, n):
+    """round 6 (seed C12-9), random: formulas in which the index name of a Sum ALSO occurs free (outside the Sum, in
+    the limit of another Sum, next to a second Sum with the same index), substituted by a number / an int variable / a
+    term / swapped, alone or together with other names"""
+    out = []
+    for _ in range(n):
+        cfg = {'nvars': 3, 'fn': False, 'idx': rng.random() < 0.2, 'sum': False, 'ibc': False}
+        idx = rng.choice(X.INDICES)
+        body = X.g_expr(rng, rng.choice([1, 2, 2]), (idx,), cfg)
+        sm = ['sum', idx, ['c', str(rng.choice([0, 0, 1, -1])), 'i'], rng.choice([['v', 'n'], ['c', '2', 'i'], ['c', '3', 'i']]), body]
+        outer = ['b', rng.choice(['add', 'mul', 'sub']), X.g_expr(rng, rng.choice([0, 1]), (), cfg), ['v', idx]]
+        r = rng.random()
+        if r < 0.2:         # a second Sum with the same index
+            outer = ['b', 'add', outer, ['sum', idx, ['c', '0', 'i'], ['c', '2', 'i'], X.g_expr(rng, 1, (idx,), cfg)]]
+        elif r < 0.35:      # free in the limit of another Sum
+            other = rng.choice([i for i in X.INDICES if i != idx])
+            outer = ['b', 'add', outer, ['sum', other, ['c', '0', 'i'], ['v', idx], X.g_expr(rng, 1, (other,), cfg)]]
+        e = ['b', rng.choice(['add', 'mul', 'sub']), outer, sm] if rng.random() < 0.5 else \
+            ['b', rng.choice(['add', 'sub']), sm, outer]
+        vs = sorted(X.fv(e))
+        style = rng.choice(['num', 'num', 'var', 'term', 'swap', 'all'])
+        subs = {}
+        if style == 'num':
+            subs[idx] = {'num': X.g_value(rng, rng.choice(['int', 'int', 'npint']))}
+        elif style == 'var':
+            subs[idx] = {'expr': ['v', rng.choice(X.INTS)]}
+        elif style == 'term':
+            subs[idx] = {'expr': ['b', rng.choice(['add', 'mul']), ['v', rng.choice(X.INTS)], ['c', str(rng.choice([1, 2])), 'i']]}
+        elif style == 'swap':
+            subs = {idx: {'expr': ['v', 'n']}, 'n': {'expr': ['v', idx]}}
+        else:
+            subs[idx] = {'num': X.g_value(rng, 'int')}
+        for x in vs:
+            if x != idx and x not in subs and (style == 'all' or rng.random() < 0.3):
+                subs[x] = {'num': X.g_value(rng, 'int' if x in X.INTS + X.INDICES else rng.choice(['int', 'float', 'time']))}
+        remaining = (X.fv(e) - set(subs)) | set().union(*[X.fv(t['expr']) for t in subs.values() if 'expr' in t] or [set()])
+        scope = X.g_scope(rng, e, rng.choice(['int', 'float', 'time', 'mixed']), extra=remaining)
+        scope = {x: t for x, t in scope.items() if x in remaining or x in X.fvv(e)}
+        _separate(rng, subs, scope)
+        case = {'kind': 'partial', 'expr': e, 'route': 'sym' if rng.random() < 0.2 else 'str', 'subs': subs,
+                'scope': scope, 'path': rng.choice(['in_scope', 'in_scope', 'exact']), 'family': 'rnd:bound'}
+        if not _fragile_case(case):
+            out.append(case)
+    return out
 
 
 def _dbl(rng, big):
@@ -1576,6 +1624,13 @@ def _karr_value(e, sc, vc, o):
         return False
 
 
+def _sum_under_minmax(e):
+    """the class of symbolic-minmax-sum: Min / Max has an argument that contains a Sum (sympy leaves the closed Sum
+    unevaluated and cannot compare it)"""
+    return any(s[0] == 'b' and s[1] in ('min', 'max') and any(t[0] == 'sum' for x in s[2:4] for t in X.subterms(x))
+               for s in X.subterms(e))
+
+
 def _time_possible(e):
     """can the exact-rational printer put a TimeType into the code of this (written, typed) formula?  It prints every
     non-integer Rational as TimeType: a non-integer constant, or a division / negative power sympy may fold into one"""
@@ -1750,9 +1805,8 @@ def _classify_call(e, kinds, scope, path, route, o, exact_required, extra_types=
         return 'piecewise-eager'
     if (('err' in o and o['err'] != 'unbound') or 'nan' in o) and X.eager_fails(e, sc, vc, dead=True):
         return 'dead-part-evaluated'
-    if o.get('err') == 'other:ValueError' and (path == 'symfull' or symbolic) and 'sum' in kinds and \
-            kinds & {'min', 'max'}:
-        return 'symbolic-minmax-sum'
+    if o.get('err') == 'other:ValueError' and (path == 'symfull' or symbolic) and _sum_under_minmax(e):
+        return 'symbolic-minmax-sum'     # round 6: only a Sum INSIDE an argument of Min / Max (was: both anywhere)
     if a['reversed_sum'] and (path == 'symfull' or symbolic) and ('nan' in o or ('val' in o and _karr_value(e, sc, vc, o))):
         return 'sum-reversed-limits'     # round 5: a value only when it IS what the Karr convention gives
     return None
